@@ -26,7 +26,11 @@ use litep2p::{
         multihash::{Code, MultihashDigest},
         SubstreamId,
     },
-    verif_multistream_select::{HeaderLine, Message as MsMessage, Protocol as MsProtocol, ProtocolError},
+    types::protocol::ProtocolName,
+    verif_multistream_select::{
+        webrtc_listener_negotiate, HandshakeResult, HeaderLine, ListenerSelectResult, Message as MsMessage,
+        NegotiationError as MsNegotiationError, Protocol as MsProtocol, ProtocolError, WebRtcDialerState,
+    },
     PeerId,
 };
 use prost::Message as _;
@@ -856,6 +860,73 @@ fn run_inner(p: &[u64]) -> Option<(Vec<u64>, Vec<u64>)> {
             orc.add(1, &b, || r.clone());
             orc.push(&mut case);
             Some((case, hdr(peak, alloc_bound(b.len()), 0, vec![r[0]])))
+        }
+        12 => {
+            let h = cur.n()? != 0;
+            let names = cur.list(|c| c.bytes())?;
+            let pl = cur.bytes()?;
+            if !cur.done() {
+                return None;
+            }
+            let pnames: Option<Vec<ProtocolName>> =
+                names.iter().map(|n| String::from_utf8(n.clone()).ok().map(ProtocolName::from)).collect();
+            let pnames = pnames?;
+            let (r, peak) = measure(|| webrtc_listener_negotiate(pnames.clone(), Bytes::copy_from_slice(&pl), h));
+            let mut body = Vec::new();
+            match r {
+                Ok(ListenerSelectResult::Accepted { protocol, message }) => {
+                    let i = names.iter().position(|n| n.as_slice() == protocol.as_bytes())?;
+                    body.extend([0, i as u64]);
+                    el(&mut body, &message);
+                }
+                Ok(ListenerSelectResult::Rejected { message }) => {
+                    body.push(1);
+                    el(&mut body, &message);
+                }
+                Ok(ListenerSelectResult::PendingProtocol { message }) => {
+                    body.push(2);
+                    el(&mut body, &message);
+                }
+                Err(e) => {
+                    use litep2p::error::Error;
+                    let code = match e {
+                        Error::NegotiationError(NegotiationError::ParseError(_)) => 1,
+                        Error::NegotiationError(NegotiationError::MultistreamSelectError(_)) => 2,
+                        Error::InvalidData => 3,
+                        _ => 9,
+                    };
+                    body.extend([3, code]);
+                }
+            }
+            Some((case, hdr(peak, alloc_bound(pl.len()), 0, body)))
+        }
+        13 => {
+            let proto = cur.bytes()?;
+            let ops = cur.list(|c| c.bytes())?;
+            if !cur.done() {
+                return None;
+            }
+            let name = ProtocolName::from(String::from_utf8(proto).ok()?);
+            let (mut st, _msg) = WebRtcDialerState::propose(name, vec![]).ok()?;
+            let total: usize = ops.iter().map(|o| o.len()).sum();
+            let (codes, peak) = measure(|| {
+                let mut codes = Vec::new();
+                for pl in ops.iter() {
+                    let code = match st.register_response(pl.clone()) {
+                        Ok(HandshakeResult::NotReady) => 0,
+                        Ok(HandshakeResult::Succeeded(_)) => 1,
+                        Ok(HandshakeResult::Rejected) => 2,
+                        Err(NegotiationError::ParseError(_)) => 11,
+                        Err(NegotiationError::MultistreamSelectError(MsNegotiationError::Failed)) => 12,
+                        Err(NegotiationError::StateMismatch) => 13,
+                        Err(NegotiationError::MultistreamSelectError(MsNegotiationError::ProtocolError(_))) => 14,
+                        Err(_) => 19,
+                    };
+                    codes.push(code);
+                }
+                codes
+            });
+            Some((case, hdr(peak, alloc_bound(total), 0, codes)))
         }
         20 => run_rt(&mut cur).map(|t| (case, t)),
         _ => None,
